@@ -593,8 +593,15 @@ def f23_split_conserve(ctx, repo):
                 ctx.ob("F23", f.where, f"{norm(n.targets[0])} = {norm(n.value)}", ok, "" if ok else "count not recomputed from the kept records")
     # splitMarkBasePos class arithmetic
     mb = ot.func("splitMarkBasePos")
-    txt = norm(mb.node)
-    ok = "newClassCount = classCount - oldClassCount" in txt and "markRecord.Class -= oldClassCount" in txt and "oldSubTable.ClassCount = oldClassCount" in txt and "newSubTable.ClassCount = newClassCount" in txt
+    # name-insensitive: K = what oldSubTable.ClassCount is set to, N = what newSubTable.ClassCount is set to (locals inlined):
+    # N == classCount - K and the moved mark records are rebased by K
+    from ..core import inline_locals as _il
+
+    cc = {norm(n.targets[0]): norm(_il(mb.node, n.value)) for n in walk_no_nested(mb.node) if isinstance(n, ast.Assign) and norm(n.targets[0]) in ("oldSubTable.ClassCount", "newSubTable.ClassCount")}
+    K, N = cc.get("oldSubTable.ClassCount"), cc.get("newSubTable.ClassCount")
+    rebased = [norm(_il(mb.node, n.value)) for n in walk_no_nested(mb.node) if isinstance(n, ast.AugAssign) and isinstance(n.op, ast.Sub) and isinstance(n.target, ast.Attribute) and n.target.attr == "Class"]
+    total = K[: -len(" // 2")] if K is not None and K.endswith(" // 2") else None  # the class count being halved
+    ok = total is not None and N is not None and N in (f"{total} - {K}", f"{total} - ({K})") and rebased == [K]
     ctx.ob("F23", mb.where, "mark classes: old keeps [0, oldClassCount), new gets the rest rebased by oldClassCount", ok)
     fs = ot.func("fixSubTableOverFlows")
     ok = any(isinstance(c, ast.Call) and norm(c.func) == "lookup.SubTable.insert" and norm(c.args[0]) == "subIndex + 1" for c in calls_in(fs.node))
